@@ -273,7 +273,6 @@ APPEND = {
     ("C04_cell_write_stamp", "cell_write_stamp", "the stamp a cell records for a write is the writer's own component at that moment"),
     ("C04_seen_only_if_acquired", "seen_only_if_acquired", "a thread passes the race test against an access of thread t only if its clock has acquired t's component of that access"),
     ("C04_cell_write_allowed_iff", "cell_write_allowed_iff", "the write check in terms of stamps"),
-    ("C04_unsync_access_keeps_clock", "unsync_access_keeps_clock", "observed: unsync_load / with_mut do not advance the clock (they are not synchronisation operations)"),
  ])],
  "C09": [("LV.CountFacts", "Counting invariants over whole runs (CountFacts.v)", [
     ("C09_run_chan_inv", "run_chan_inv", "EVERY run of EVERY program: runtime message count = number of queued views = length of the std queue (while the receiver lives)"),
